@@ -57,6 +57,12 @@ type FS struct {
 // NewFS returns a substrate.
 func NewFS() *FS { return &FS{counts: map[string]int{}} }
 
+// RemoveDelayNS, when non-zero, holds every asynchronous file removal of
+// moss back for that long (the hook sits right before os.Remove): programs
+// that reopen without waiting for the closed instance's removals use it to
+// make sure the removal really races the new instance.
+var RemoveDelayNS int64
+
 var currentFS atomic.Value // fsBox
 
 type fsBox struct{ fs *FS }
@@ -66,6 +72,9 @@ func init() {
 	moss.VerifSetRemoveHook(func(path string) {
 		if b, ok := currentFS.Load().(fsBox); ok && b.fs != nil {
 			b.fs.recordUnlink(path)
+		}
+		if d := atomic.LoadInt64(&RemoveDelayNS); d > 0 {
+			time.Sleep(time.Duration(d))
 		}
 	})
 }
